@@ -341,7 +341,7 @@ func checkC09Directed(c C09Directed) *Violation {
 			"track-0":             {"0"},
 			"track-negative":      {"-1", "-5", "-2147483648"},
 			"track-not-a-number":  {"abc", "", "1.5", "two", "0x"},
-			"track-beyond-header": {"65536", "65537", "100000", "131072"},
+			"track-beyond-header": {"65536", "65537", "100000", "131072", "4294967296", "1000000000000000", "9223372036854775807"},
 		}[c.Channel]
 		sub := [][]string{{"write"}, {"write", "event"}}[seed%2]
 		argv := append(append([]string{}, sub...), "--track", pickFrom(seed/2, val))
@@ -554,6 +554,25 @@ func TestC09Directed(t *testing.T) {
 	for _, dc := range directedClasses {
 		for _, ch := range dc.channels {
 			all = append(all, cc{dc.name, ch})
+		}
+	}
+	// every kind of inconsistent dictionary at least once per run, whatever the random part draws
+	{
+		var fixed []PItem
+		for i := 0; i < 2*len(badDictKinds); i++ {
+			fixed = append(fixed, PItem{Deg: IV{1 + i%7, int(theory.Perfect)}, Vals: []Frac{{1, 1}}})
+			if q := theory.QualsFor(1 + i%7); len(q) > 0 {
+				fixed[i].Deg.Qual = int(q[0])
+			}
+		}
+		chans := []string{"dict-write", "dict-write-event", "dict-write-parse", "dict-write-conv", "dict-chord-describe", "dict-attr-describe"}
+		for at := 0; at < len(badDictKinds); at++ {
+			if !myShare(at) {
+				continue
+			}
+			c := C09Directed{Class: "inconsistent-dictionary", Channel: chans[at%len(chans)], Items: fixed, At: at}
+			r.Case(fmt.Sprintf("fixed-dict|%d", at), true, "directed", "directed:inconsistent-dictionary", "channel:"+c.Channel)
+			r.Check(t, checkC09Directed(c), "c09-directed", c)
 		}
 	}
 	rapid.Check(t, func(t *rapid.T) {
